@@ -93,11 +93,11 @@ Definition kind_of (t : Z) : kind :=
   else if t =? 68 then KD else if t =? 71 then KG else if t =? 72 then KH
   else if t =? 100 then Kd else Kother.
 
-(** the three booleans of [Server] the relay depends on *)
+(** the two booleans of [Server] the relay depends on.  (in_transaction, which the 'Z' and 'C'
+    arms also maintain, only decides when the server is released — C01/C02 — and is left out.) *)
 Record bel := mkBel { da : bool;      (* data_available *)
-                      copy : bool;    (* in_copy_mode *)
-                      txn : bool }.   (* in_transaction *)
-Definition bel0 : bel := mkBel false false false.
+                      copy : bool }.  (* in_copy_mode *)
+Definition bel0 : bel := mkBel false false.
 
 Fixpoint after_nul (b : bytes) : option bytes :=
   match b with
@@ -123,19 +123,19 @@ Section Recv.
   Definition arm (s : bel) (n : Z) (f : frame) : armres :=
     match kind_of (fst f) with
     | KZ => match snd f with                                     (* 932-964 *)
-            | b :: _ => if b =? 84 then Break (mkBel false (copy s) true)
-                        else if b =? 73 then Break (mkBel false (copy s) false)
-                        else if b =? 69 then Break (mkBel false (copy s) true)
+            | b :: _ => if b =? 84 then Break (mkBel false (copy s))
+                        else if b =? 73 then Break (mkBel false (copy s))
+                        else if b =? 69 then Break (mkBel false (copy s))
                         else Fail                                 (* ProtocolSyncError *)
             | [] => Fail                                          (* get_u8 on an empty body panics *)
             end
-    | KE => Cont (mkBel (da s) false (txn s))                     (* 967-1002, caching off *)
-    | KC => Cont (mkBel (da s) false (txn s))                     (* 1005-1039 *)
+    | KE => Cont (mkBel (da s) false)                     (* 967-1002, caching off *)
+    | KC => Cont (mkBel (da s) false)                     (* 1005-1039 *)
     | KS => if two_cstrings (snd f) then Cont s else Fail         (* 1041-1053 *)
-    | KD => let s' := mkBel true (copy s) (txn s) in              (* 1056-1064 *)
+    | KD => let s' := mkBel true (copy s) in              (* 1056-1064 *)
             if pD n then Break s' else Cont s'
-    | KG => Break (mkBel (if gclr then false else da s) true (txn s))   (* 1067-1076 *)
-    | KH => Break (mkBel true true (txn s))                       (* 1079-1083 *)
+    | KG => Break (mkBel (if gclr then false else da s) true)   (* 1067-1076 *)
+    | KH => Break (mkBel true true)                       (* 1079-1083 *)
     | Kd => if pd n then Break s else Cont s                      (* 1086-1091 *)
     | Kother => Cont s                                            (* 'c', '1', _ *)
     end.
@@ -382,20 +382,23 @@ Section Sig.
   Definition is_break (r : armres) : bool := match r with Break _ => true | _ => false end.
   (* a body every arm accepts: status 'I', and two C strings *)
   Definition probe_body (t : Z) : bytes := if t =? 90 then [73] else [0; 0].
-  Definition eff (proj : bel -> bool) (t : Z) : Z :=
+  (* effect on a flag, with the buffer length [n]: 0 = cleared, 1 = set, 2 = untouched *)
+  Definition eff (proj : bel -> bool) (n : Z) (t : Z) : Z :=
     let f := (t, probe_body t) in
-    match res_bel (arm pD pd true (mkBel false false false) 0 f),
-          res_bel (arm pD pd true (mkBel true true true) 0 f) with
+    match res_bel (arm pD pd true (mkBel false false) n f),
+          res_bel (arm pD pd true (mkBel true true) n f) with
     | Some a, Some b => if proj a then (if proj b then 1 else 3) else (if proj b then 2 else 0)
     | _, _ => 4
     end.
+  Definition huge : Z := 1000000000000.
   (* break: never (0) / always (1) / not on an empty buffer but on a huge one (2 = threshold) *)
   Definition brk (t : Z) : Z :=
     let f := (t, probe_body t) in
     let lo := is_break (arm pD pd true bel0 0 f) in
-    let hi := is_break (arm pD pd true bel0 1000000000000 f) in
+    let hi := is_break (arm pD pd true bel0 huge f) in
     if lo then (if hi then 1 else 3) else (if hi then 2 else 0).
-  Definition arm_sig (t : Z) : Z * (Z * Z * Z) :=
+  (* (tag, (effects on an empty buffer, break kind, effects on the path that breaks)) *)
+  Definition arm_sig (t : Z) : Z * (Z * Z * Z * Z * Z) :=
     let tt := if t =? -1 then 0 else t in        (* the `_` arm is probed with tag 0 *)
-    (t, (eff da tt, eff copy tt, brk tt)).
+    (t, (eff da 0 tt, eff copy 0 tt, brk tt, eff da huge tt, eff copy huge tt)).
 End Sig.
